@@ -411,17 +411,18 @@ def check_prim(rep: Rep, pre: str, comp: Competition) -> None:
                     rep.ev(pre + "PRIM-stray", e, False, "store to a predecessor outside the accepted branch")
     # prototype marking at removal
     predp = comp.field(p, "pred")
-    g_pred = ("cmp", "!=", *sorted([K("NIL"), predp], key=repr))
+    from .ir import not_nil_forms
+    g_preds = not_nil_forms(predp)
     g_lab = ("cmp", "!=", *sorted([comp.field(p, "label"), comp.field(predp, "label")], key=repr))
     marks = [e for e in comp.events if e.kind == "store" and e.target[0] == "attr" and e.target[2] == "status"]
 
     def guarded(e: Event) -> bool:
         gs = [(g, pol) for g, pol in e.guards]
-        return has_guard(e.guards, g_pred) and has_guard(e.guards, g_lab)
+        return any(has_guard(e.guards, g) for g in g_preds) and has_guard(e.guards, g_lab)
 
     def only_benign(e: Event, node: Term) -> bool:
         base = facts(comp.body_guards())
-        extra = [f for f in facts(e.guards) if f not in base and f not in (g_pred, g_lab)]
+        extra = [f for f in facts(e.guards) if f not in base and f not in g_preds and f != g_lab]
         benign = ("cmp", "!=", *sorted([K("PROTOTYPE"), ("attr", node, "status")], key=repr))
         return all(f == benign for f in extra)
 
